@@ -10,27 +10,27 @@ ROOT = os.path.dirname(os.path.dirname(os.path.abspath(__file__)))
 P = {
  "C01": (True, "model_checking", "6 C01",
          "TLA+ functional spec (Codec.tla) checked by TLC over the bounded type/value universe; every TLC-enumerated behaviour replayed into the library",
-         "TLC proves RoundTrip on the format for every type expression of depth <= 2 (quick) / 3 (thorough) over the full built-in vocabulary and every boundary value; each enumerated (type, value) is replayed: real encode, real decode, compare with the model value. Exhaustive within the stated bounds.",
+         "TLC proves RoundTrip on the format for every type expression of depth <= 2 (quick) / 3 (thorough) over the full built-in vocabulary and every boundary value; each enumerated (type, value) is replayed: real encode, real decode, compare with the model value. Exhaustive within the stated bounds. Size axis (MC_Long: values on both sides of every var-int width change incl. 2^16) and depth / count axis (MC_Deep: recursive declarations 64 .. 300 (1100) levels, 1024 / 1025 (5000) smart-pointer elements) included.",
          "bounds of spec/Universe.tla; glue dv::model trusted; TZ=UTC"),
  "C04": (True, "model_checking", "6 C04",
          "TLA+ reference encoder/decoder as the format definition; byte-for-byte replay of TLC-enumerated encodings (all legal forms) into the library",
          "Enc in spec/Codec.tla is the wire format, written from the format documentation and anchored to Scala-produced bytes; the library's bytes must equal it on every enumerated case and every alternative legal form (unknown-length sequences, chunked tuples, any hash order) must decode to the value.",
          "the specification is the reference; independence from the code rests on the golden file, the pinned Point vector and the documentation"),
  "C02": (True, "translation_validation", "6 C02",
-         "TLC enumerates declarations (MC_Decl.tla) and checks mechanism = documented procedure on the spec; each declaration is compiled through the real derive macro and its behaviour compared with the specification's interpretation of the same declaration",
+         "TLC enumerates declarations (MC_Decl.tla) and checks mechanism = documented procedure on the spec; each declaration is compiled through the real derive macro and its behaviour compared with the specification's interpretation of the same declaration; trace validation of the record mechanism recorded from the running library (Trace_Adt against AdtMech.tla: per-field decisions of writer and reader, enum layer) and of the writer machine (Trace_Writer against Writer.tla, model-checked by MC_Writer)",
          "translation validation of the macro expansion: >1000 declarations (struct shapes x transient subsets x Option spellings x evolution annotations x nesting/recursion x special field names; enums x shapes x transient x sorted x variant evolution), every value over 2-point field domains: bytes, decoded value (transient reset), self-delimitation, prefix rejection.",
          "declaration universe bounded as in spec/MC_Decl.tla; tools/gen_decl.py trusted"),
  "C09": (True, "model_checking", "6 C09",
          "TLA+ string-table semantics (Codec!StoreString used by Enc and Dec alike) checked by TLC on MC_Strings.tla over all write sequences x placements; every sequence replayed through the library (one context per stream)",
-         "all sequences of <= 4 (quick) / 5 (thorough) writes over {a, b, gone} x {dedup, plain} in 8 placements incl. evolved records whose header carries a removed / transient field name colliding with a value, and two such records in a vector; bytes, decoded strings, first-is-plain / repeat-is-VarI(-id) / no-repeat-no-cost, and ids never introduced.",
+         "all sequences of <= 4 (quick) / 5 (thorough) writes over {a, b, gone} x {dedup, plain} in 8 placements incl. evolved records whose header carries a removed / transient field name colliding with a value, and two such records in a vector; bytes, decoded strings, first-is-plain / repeat-is-VarI(-id) / no-repeat-no-cost, and ids never introduced. Long streams: 130 / 300 / 8200 distinct strings followed by repeats of ids on both sides of every width change of a back-reference; evolved record whose added field is declared first.",
          "cross-version dedup is documented by the library as incompatible and is outside the property"),
  "C10": (True, "model_checking", "6 C10",
          "TLA+ object-table and graph-codec specification (Refs.tla) checked by TLC on every small rooted graph; each graph replayed with an Rc<RefCell<Node>> codec built on the library's reference-tracking API, compared by bytes and by pointer-identity canonical form",
-         "all 2249 successor structures on <= 3 nodes (out-degree <= 2) x 2 labelings: isomorphism incl. sharing and distinctness, each reachable object written once, ids in pre-order, termination on cycles; every stream byte rewritten to an object number beyond the table must be rejected as the reference says.",
+         "all 2249 successor structures on <= 3 nodes (out-degree <= 2) x 2 labelings: isomorphism incl. sharing and distinctness, each reachable object written once, ids in pre-order, termination on cycles; every stream byte rewritten to an object number beyond the table must be rejected as the reference says. Chains of 130 (129 .. 300) nodes whose back-reference cites objects on both sides of 127/128 and 255/256; all offer sequences <= 4 over a record, its first member (same address) and an unrelated object.",
          "the graph codec is harness code (the library ships none); decoded nodes are registered from a boxed arena because the table stores raw pointers (D13)"),
  "C11": (True, "model_checking", "6 C11",
          "VarintCore.tla instantiated twice: over unbounded Int for Apalache (statements proved for all 2^32 u32 and all 2^32 i32 values) and over <<hi4, lo28>> pairs for TLC (all group / zig-zag boundaries, emitted as vectors); replay of the vectors through 4 sinks x 3 sources and a sweep of the real functions against a transliteration of the spec pinned to the vectors",
-         "symbolic: UnsignedRoundTrip (bijection, continuation bits, no complete strict prefix), UnsignedMinimal (exact 1-5 byte thresholds), ZigZagLemma and ZigZagOnto (bijection i32 <-> u32, signed thresholds) for every value; executed: quick sweeps every 16th u32 and i32 (random phase), thorough sweeps all 2 x 2^32 values (exhaustive).",
+         "symbolic: UnsignedRoundTrip (bijection, continuation bits, no complete strict prefix), UnsignedMinimal (exact 1-5 byte thresholds), ZigZagLemma and ZigZagOnto (bijection i32 <-> u32, signed thresholds) for every value; executed: quick sweeps every 16th u32 and i32 (random phase), thorough sweeps all 2 x 2^32 values (exhaustive). Every vector and every swept value is also read in context (bytes before and after: InContext) on all sources.",
          "Apalache/Z3; the 15-line Rust transliteration of VarintCore.tla (checked against every TLC vector first)"),
  "C12": (True, "model_checking", "6 C12",
          "TLC invariants ContainerIndependent / FormIndependent / SameBytes / BytesInterchangeable on MC_Containers.tla; cross-container replay (bytes really written by the source container read as every target container)",
@@ -38,14 +38,14 @@ P = {
          "hash containers iterate in unspecified order: ordered targets are compared as multisets in that case"),
  "C13": (True, "translation_validation", "6 C13",
          "TLC invariants CtorIdentity / ExtensionSafe / UnknownCtorErr on MC_Decl.tla; enum pairs (E, E') generated as separate derived Rust types and replayed",
-         "all enums of 1-3 variants over unit/tuple/struct shapes x transient placement x sorted/unsorted (names chosen so sorting permutes), all extensions by 1-2 later constructors (appended; for sorted enums also declared first), all indices >= n incl. 127, 128, 2^28, 2^32-1: decoded by the other definition / must be the dedicated errors.",
+         "all enums of 1-3 variants over unit/tuple/struct shapes x transient placement x sorted/unsorted (names chosen so sorting permutes), all extensions by 1-2 later constructors (appended; for sorted enums also declared first), all indices >= n incl. 127, 128, 2^28, 2^32-1: decoded by the other definition / must be the dedicated errors. Wide enums (130 constructors: two-byte indices); write_constructor / read_constructor events validated by Trace_Adt.",
          "bounded enum universe; error classes compared through the harness' error-class map"),
  "C14": (True, "translation_validation", "6 C14",
          "TLC invariants TransientInvisible / TransientCtorErr on MC_Decl.tla and histories ending in FieldMadeTransient in MC_Evo.tla; derived types generated and replayed",
          "transient fields at every non-empty subset of positions with two different non-default values (bytes must be identical and equal to the spec's, decode must give the declared default); transient constructors at every index (SerializingTransientConstructor naming type and constructor); made-optional-then-transient declarations encode.",
          "bounded declaration universe"),
  "C15": (True, "model_checking", "6 C15",
-         "replay of the C01 universe on five sinks + SizeCalculator against the specification's bytes; MC_Prim.tla reader state machine (cursor semantics of every primitive read) checked by TLC and replayed on the three BinaryInput implementations",
+         "replay of the C01 universe on five sinks + SizeCalculator against the specification's bytes; MC_Prim.tla reader state machine (cursor semantics of every primitive read) checked by TLC and replayed on the three BinaryInput implementations; MC_PrimOut.tla: scripts of primitive writes on four sinks directly and through a SerializationContext, read back on three sources",
          "sinks: every (type, value) of the built-in universe on Vec<u8>, BytesMut, serialize_to_bytes, serialize_to_byte_vec, a recording user-defined output (all byte-identical and equal to the spec) and SizeCalculator (exact length). sources: every script of <= 2 (quick) / 3 (thorough) primitive reads (fixed width, var_u32, var_i32, bytes / skip of 0, 1, 3 and usize::MAX) over every byte string of length <= 3 over the hostile alphabet: results, first InputEnded and cursor position identical to the model on SliceInput, OwnedInput and DeserializationContext.",
          "compressed blocks are C16's business"),
  "C16": (True, "fault_enumeration", "6 C16",
@@ -54,31 +54,31 @@ P = {
          "DEFLATE is not specified (opaque payload); python zlib is the independent payload oracle; on a failed read 'bytes actually produced' is measured by running an inflater over the same payload"),
  "C17": (True, "model_checking", "6 C17",
          "TLC invariant EncTotal on MC_EncTotal.tla (outcome of the reference encoder is Ok or the documented error class); replay under catch_unwind on every sink; exhaustive sweep of all Unicode scalar values; counts announced through exact size hints",
-         "all 1 112 064 scalar values of char (encodable iff <= U+FFFF); unencodable characters nested in 7 container / record shapes (error propagates, every entry point hands back Err); dangling FieldMadeOptional -> UnknownFieldReferenceInEvolutionStep; a record with 254 declared steps; sequence counts i32::MAX / i32::MAX+1 / u32::MAX / u32::MAX+1; (thorough) a 2 GiB string and a 4 GiB byte vector; transient constructors in C14's universe.",
+         "all 1 112 064 scalar values of char (encodable iff <= U+FFFF); unencodable characters nested in 7 container / record shapes (error propagates, every entry point hands back Err); dangling FieldMadeOptional -> UnknownFieldReferenceInEvolutionStep; a record with 254 declared steps; sequence counts i32::MAX / i32::MAX+1 / u32::MAX / u32::MAX+1; (thorough) a 2 GiB string and a 4 GiB byte vector; transient constructors in C14's universe. All step lists <= 2 (3) naming a ghost field against the rule IsDangling; codecs that make a top-level call of their own (envelope): five outer x four inner entry points.",
          "write_compressed with >= 4 GiB input is not executed (minutes of DEFLATE); its length check is the same try_into pattern"),
  "C18": (True, "model_checking", "6 C18",
          "PlusCal specification Calls.tla (per-type Once protocol, per-call tables, non-atomic call bodies) checked by TLC over all interleavings incl. liveness; two defect models must be caught; stress replay: fresh process per trial, barrier-released threads on first use of many derived types, results compared with the specification's fresh-call answer",
-         "spec: all interleavings of 3 threads x 3 calls over 3 types (OnceOnly, ResultIndependent, CtxFresh, MetaStable, CallsTerminate under weak fairness); shared-table and no-Once defect models are detected (vacuity guard). code: 24 (quick) / 400 (thorough) trials, 2 / 8 / 16 threads, ~240 derived types each with its own lazy metadata first-used under contention, then steady state in rotated order; items include records with deduplicated strings and a cyclic object graph so that table state leaking between calls or threads changes bytes.",
+         "spec: all interleavings of 3 threads x 3 calls over 3 types (OnceOnly, ResultIndependent, CtxFresh, MetaStable, CallsTerminate under weak fairness); shared-table and no-Once defect models are detected (vacuity guard). code: 24 (quick) / 400 (thorough) trials, 2 / 8 / 16 threads, ~240 derived types each with its own lazy metadata first-used under contention, then steady state in rotated order; items include records with deduplicated strings and a cyclic object graph so that table state leaking between calls or threads changes bytes. One controlled schedule: all threads wait for each other at the innermost of 70 / 150 / 400 nesting levels (all calls at their deepest point at once).",
          "real thread schedules are stressed, not enumerated"),
  "C19": (True, "other", "6 C19",
          "RefLife.tla: TLC enumerates all client programs over the object table and classifies them by GetSafe; each is rendered as safe Rust on three API paths and compiled (legal siblings must compile, violating programs must be rejected); catalogue of the API's other borrow relationships; unsafe decode paths replayed under Miri on model-generated vectors, cross-checked with the reference decoder",
          "the observables are a compiler verdict and an interpreter's undefined-behaviour report: the specification generates programs and inputs, rustc and Miri are the monitors (level: other). D13 (object table keeps raw pointers) is a listed known finding: its witnesses compile.",
          "AddressSanitizer is not used (Miri also sees uninitialised reads, which ASan does not); Miri executes ~2500 vectors per run"),
  "C03": (True, "model_checking", "6 C03",
-         "TLA+ Adt.tla: TLC enumerates all legal evolution histories and checks mechanism (header/chunks/regions) = documented outcome; each history is rendered as derive inputs (one Rust type per version) and every (writer, reader, value, embedding) case replayed",
+         "TLA+ Adt.tla: TLC enumerates all legal evolution histories and checks mechanism (header/chunks/regions) = documented outcome; each history is rendered as derive inputs (one Rust type per version) and every (writer, reader, value, embedding) case replayed; the per-field decision table (AdtMech.tla) is proved by TLC to refine the documented outcome (KindsMeanOutcome) and the decisions recorded from the running library are validated against it (Trace_Adt), the buffer / chunk mechanism against Writer.tla (Trace_Writer)",
          "every legal history up to 2 steps (quick) / 3 steps (thorough) from every initial record of 1-2 fields, all version pairs, all values, four embeddings (top level, in a tuple, in a chunk, in a vector in a chunk); expected outcome computed by the specification's Expected operator written from the documentation; vacuity guards: dropping the legality rule or the DESIGN-9 exclusion makes TLC fail.",
          "field types limited to u8/Option<u8> (plus String and a nested record in the rich configuration); histories bounded; gen_decl.py trusted to render declarations"),
  "C05": (True, "fault_enumeration", "6 C05",
-         "TLA+ reference decoder evaluated by TLC on every enumerated hostile input (DecTotal / TamperTotal on Hostile.tla); each input decoded by the library under panic, hang, time and heap monitors in debug (overflow checks) and release builds",
+         "TLA+ reference decoder evaluated by TLC on every enumerated hostile input (DecTotal / TamperTotal on Hostile.tla); each input decoded by the library under panic, hang, time and heap monitors in debug (overflow checks) and release builds; Reader.tla's RegionInv proved inductive by Apalache for every buffer length, read size and region (ReaderInt.tla); deep well-formed inputs (MC_Deep), multi-byte text probes (MC_Text), irregular-history data",
          "all strings over an 8-symbol tag/length alphabet up to length 3 (quick) / 4 (thorough) x 77 target types; every tamper operator (set to each alphabet value, delete, duplicate, insert, swap) at every position of every valid encoding of the depth-2 universe, of derived / evolved / nested / recursive records and of their in-chunk embeddings; all 256^2 strings per type (totality only); witnesses of the two known findings.",
          "budgets are monitors, not model properties; D14 / D15 are listed known findings (known_findings.json)"),
  "C06": (True, "fault_enumeration", "6 C06",
-         "strict TLA+ reference decoder (DESIGN 4.5 leniencies only) gives the verdict for every TLC-enumerated tampered / raw input; replay: implementation Ok(v) must imply reference Ok(v) with the same bytes consumed",
+         "strict TLA+ reference decoder (DESIGN 4.5 leniencies only) gives the verdict for every TLC-enumerated tampered / raw input; replay: implementation Ok(v) must imply reference Ok(v) with the same bytes consumed; Trace_Reader validation of recorded reads / regions; Apalache inductive RegionInv; well-formed data of irregular histories and multi-byte text probes with the reference verdict",
          "same hostile universe as C05 with emphasis on framing (chunk sizes, counts, lengths, tags, position and version bytes rewritten at every position in every embedding); the implication is evaluated per input against the emitted reference verdict.",
          "the reference decoder is the specification; inputs it leaves Unspecified (non-canonical decimals, unknown time-zone names, leap-second timestamps) are checked for totality only"),
  "C07": (True, "model_checking", "6 C07",
          "TLC invariant SelfDelimiting on the spec; replay of encoding++suffix through a DeserializationContext counting bytes left",
-         "every enumerated encoding followed by each suffix of a suffix set decodes to the same value and leaves exactly the suffix; checked on the spec by TLC and on the code by replay.",
+         "every enumerated encoding followed by each suffix of a suffix set decodes to the same value and leaves exactly the suffix; checked on the spec by TLC and on the code by replay. Suffixes are junk bytes plus the encodings of the first / last boundary value of every leaf type (FollowerSuffixes), for built-in, derived and evolved types.",
          "suffix set is finite (6 suffixes chosen to look like more items / varint continuation / tags)"),
  "C08": (True, "fault_enumeration", "6 C08",
          "TLC invariant PrefixRejected on the spec over every cut point; replay of every strict prefix of every enumerated encoding into the library",
